@@ -132,8 +132,14 @@ C04_ConvergedAt(st) ==
                 good == {path \in DOMAIN stored : ~ApplyFailed(t, cfgs[t].values[path].i)}
                 \* leaves deleted or overwritten only by changes whose apply failed may linger on the device
                 anyFailed == \E id \in DOMAIN props : props[id].t = t /\ props[id].ph.app = "F"
+                \* ... but only values that were really applied once: the value of a change the device accepted
+                \* (or anything, if a rollback was applied) - never a value that only a refused change carried
+                lingering(path) == anyFailed /\ \E id \in DOMAIN props :
+                                      /\ props[id].t = t /\ props[id].ph.app = "D"
+                                      /\ \/ props[id].kind = "rollback"
+                                         \/ (path \in DOMAIN props[id].ch /\ props[id].ch[path] = dev[t].vals[path])
             IN /\ \A path \in good : path \in DOMAIN dev[t].vals /\ dev[t].vals[path] = stored[path]
-               /\ anyFailed \/ \A path \in DOMAIN dev[t].vals : path \in DOMAIN stored
+               /\ \A path \in DOMAIN dev[t].vals : (path \in good /\ dev[t].vals[path] = stored[path]) \/ lingering(path)
 C04_Converged == C04_ConvergedAt(Stable)
 
 -----------------------------------------------------------------------------
